@@ -1,0 +1,123 @@
+//go:build verif
+
+package frugal
+
+import (
+	"io"
+	"sync/atomic"
+)
+
+// This file is only compiled with the "verif" build tag. It exposes yield
+// points and read-only accessors used by external runtime monitors. Nothing
+// here changes the behaviour of the library unless a hook function has been
+// installed with VerifSetHook.
+
+type verifHookFunc func(point string, opid uint64)
+
+var verifHookFn atomic.Value // holds verifHookFunc
+
+// VerifSetHook installs fn as the function called at every yield point. A nil
+// fn removes the hook.
+func VerifSetHook(fn func(point string, opid uint64)) {
+	verifHookFn.Store(verifHookFunc(fn))
+}
+
+func verifHook(point string, opid uint64) {
+	if fn, ok := verifHookFn.Load().(verifHookFunc); ok && fn != nil {
+		fn(point, opid)
+	}
+}
+
+func verifHookCtx(point string, ctx FContext) {
+	fn, ok := verifHookFn.Load().(verifHookFunc)
+	if !ok || fn == nil {
+		return
+	}
+	opid, err := getOpID(ctx)
+	if err != nil {
+		return
+	}
+	fn(point, opid)
+}
+
+func verifRegistryOf(t FTransport) fRegistry {
+	switch tr := t.(type) {
+	case *fAdapterTransport:
+		return tr.registry
+	case *fNatsTransport:
+		return tr.registry
+	case *fHTTPTransport:
+		return tr.registry
+	}
+	return nil
+}
+
+// VerifRegistrySize returns the number of in-flight registrations of the
+// transport's registry, or -1 if the transport has no registry.
+func VerifRegistrySize(t FTransport) int {
+	r, ok := verifRegistryOf(t).(*fRegistryImpl)
+	if !ok || r == nil {
+		return -1
+	}
+	r.mu.RLock()
+	defer r.mu.RUnlock()
+	return len(r.channels)
+}
+
+// VerifRegistry exposes the unexported client registry.
+type VerifRegistry struct{ r fRegistry }
+
+// VerifNewRegistry returns a fresh client registry.
+func VerifNewRegistry() *VerifRegistry { return &VerifRegistry{r: newFRegistry()} }
+
+// Register forwards to the registry.
+func (v *VerifRegistry) Register(ctx FContext, resultC chan []byte) error {
+	return v.r.Register(ctx, resultC)
+}
+
+// Unregister forwards to the registry.
+func (v *VerifRegistry) Unregister(ctx FContext) { v.r.Unregister(ctx) }
+
+// Execute forwards to the registry.
+func (v *VerifRegistry) Execute(frame []byte) error { return v.r.Execute(frame) }
+
+// Dispatch forwards to the registry.
+func (v *VerifRegistry) Dispatch(opid uint64, frame []byte) error { return v.r.dispatch(opid, frame) }
+
+// Size returns the number of registrations.
+func (v *VerifRegistry) Size() int {
+	r := v.r.(*fRegistryImpl)
+	r.mu.RLock()
+	defer r.mu.RUnlock()
+	return len(r.channels)
+}
+
+// VerifMarshalHeaders exposes the header writer.
+func VerifMarshalHeaders(headers map[string]string) []byte {
+	return writeMarshaler.marshalHeaders(headers)
+}
+
+// VerifReadHeader exposes the stream header reader.
+func VerifReadHeader(r io.Reader) (map[string]string, error) { return readHeader(r) }
+
+// VerifGetHeadersFromFrame exposes the frame header reader (frame without
+// the leading frame size).
+func VerifGetHeadersFromFrame(frame []byte) (map[string]string, error) {
+	return getHeadersFromFrame(frame)
+}
+
+// VerifUnmarshalFrame exposes the frame decoder (frame with the leading frame
+// size).
+func VerifUnmarshalFrame(frame []byte) (map[string]string, []byte, error) {
+	c, err := unmarshalFrame(frame)
+	if err != nil {
+		return nil, nil, err
+	}
+	return c.headers, c.payload, nil
+}
+
+// VerifAddHeadersToFrame exposes addHeadersToFrame (frame with the leading
+// frame size).
+func VerifAddHeadersToFrame(frame []byte, headers map[string]string) ([]byte, error) {
+	return addHeadersToFrame(frame, headers)
+}
